@@ -6,8 +6,8 @@ import os
 import sys
 
 NCHUNK = 16
-MODES = ['INT', 'REF', 'CREF', 'RREF', 'PTR', 'VAL', 'UPV', 'UPR']
-PTYPE = {'CREFRET': 'const Cnt&', 'RVRET': 'Cnt2&&', 'LVRET': 'Cnt2&', 'INT': 'int', 'REF': 'Cnt&', 'CREF': 'const Cnt&', 'RREF': 'Cnt&&', 'PTR': 'Cnt*', 'VAL': 'Cnt', 'UPV': 'std::unique_ptr<int>', 'UPR': 'std::unique_ptr<int>&&'}
+MODES = ['INT', 'REF', 'CREF', 'RREF', 'PTR', 'VAL', 'UPV', 'UPR', 'SREF', 'PREF']
+PTYPE = {'SREF': 'int&', 'PREF': 'Cnt*&', 'CREFRET': 'const Cnt&', 'RVRET': 'Cnt2&&', 'LVRET': 'Cnt2&', 'INT': 'int', 'REF': 'Cnt&', 'CREF': 'const Cnt&', 'RREF': 'Cnt&&', 'PTR': 'Cnt*', 'VAL': 'Cnt', 'UPV': 'std::unique_ptr<int>', 'UPR': 'std::unique_ptr<int>&&'}
 
 
 def others_cond(n, p):
@@ -21,7 +21,7 @@ def emit(n, p, mode, kind):
     types = ['int'] * n
     if n:
         types[p - 1] = PTYPE[mode]
-    ret = 'Cnt&' if mode == 'REF' else ('const Cnt&' if mode == 'CREFRET' else ('Cnt2' if mode in ('RVRET', 'LVRET') else 'int'))
+    ret = 'Cnt&' if mode == 'REF' else 'int&' if mode == 'SREF' else ('const Cnt&' if mode == 'CREFRET' else ('Cnt2' if mode in ('RVRET', 'LVRET') else 'int'))
     sig = '%s(%s)' % (ret, ', '.join(types))
     wild = ', '.join(['trompeloeil::_'] * n)
     decl = []
@@ -74,7 +74,24 @@ def emit(n, p, mode, kind):
                      '    Cnt& r = %s.f(%s);' % (callobj, ', '.join(args)),
                      chk('a T& parameter is a non-const lvalue inside WITH', 'cw', 0), chk('a T& parameter is a non-const lvalue inside SIDE_EFFECT', 'cs', 0),
                      chk('WITH saw the caller\'s object (address identity)', '(int)(addr == &arg)', 1), chk('write through _p visible to the caller', 'arg.v', 777),
-                     chk('reference returned from _p aliases the caller\'s object', '(int)(&r == &arg)', 1), chk('no copies', 'Cnt::copies', 0), chk('no moves', 'Cnt::moves', 0), '  }']
+                     chk('reference returned from _p aliases the caller\'s object', '(int)(&r == &arg)', 1), chk('no copies', 'Cnt::copies', 0), chk('no moves', 'Cnt::moves', 0), '  }',
+                     '  { REQUIRE_CALL(m, f(%s)).LR_THROW(constness(_%d) * 10 + (int)(&_%d == &arg));' % (wild, p, p),
+                     '    int thrown = -1; try { %s.f(%s); } catch (int x) { thrown = x; } catch (...) { thrown = -2; }' % (callobj, ', '.join(args)),
+                     chk('inside THROW a T& parameter is the caller\'s non-const object', 'thrown', 1), '  }']
+        elif mode == 'SREF':
+            # a reference to a scalar (an out-parameter): the clauses work on the caller's variable itself
+            body.append('  int sarg = %d; const void* addr = nullptr;' % v)
+            args[p - 1] = 'sarg'
+            body += ['  { REQUIRE_CALL(m, f(%s)).LR_WITH(&_%d == &sarg && _%d == %d && %s).LR_SIDE_EFFECT(addr = &_%d).LR_SIDE_EFFECT(_%d = 777).LR_RETURN(_%d);' % (wild, p, p, v, oc, p, p, p),
+                     '    int& r = %s.f(%s);' % (callobj, ', '.join(args)),
+                     chk('int& parameter: WITH and SIDE_EFFECT see the caller\'s variable (address identity)', '(int)(addr == &sarg)', 1), chk('int& parameter: write through _p visible to the caller', 'sarg', 777),
+                     chk('int& returned from _p aliases the caller\'s variable', '(int)(&r == &sarg)', 1), '  }']
+        elif mode == 'PREF':
+            body.append('  Cnt pointee(%d); Cnt* parg = nullptr; Cnt::reset();' % v)
+            args[p - 1] = 'parg'
+            body += ['  { REQUIRE_CALL(m, f(%s)).LR_WITH(&_%d == &parg && _%d == nullptr && %s).LR_SIDE_EFFECT(_%d = &pointee).LR_RETURN(_%d == &pointee ? _%d->v : -1);' % (wild, p, p, oc, p, p, p),
+                     '    int r = %s.f(%s);' % (callobj, ', '.join(args)),
+                     chk('T*& out-parameter: the caller\'s pointer was set by the side effect', '(int)(parg == &pointee)', 1), chk('RETURN sees the pointer the side effect stored', 'r', v), chk('no copies', 'Cnt::copies', 0), '  }']
         elif mode == 'CREF':
             args[p - 1] = 'arg'
             body += ['  { REQUIRE_CALL(m, f(%s)).LR_WITH(&_%d == &arg && %s).LR_SIDE_EFFECT(addr = &_%d).RETURN(_%d.v);' % (wild, p, oc, p, p),
